@@ -369,3 +369,33 @@ claim('C18',
       'Trusted: Lean kernel, harness. Exceptions raised INSIDE oracles (fpylll, scipy, sympy) are outside the model; the lattices handed to LLL are triangular with non-zero diagonal.',
       'Lean 4 proof of totality through Except-valued models + degenerate-batch search on the implementation',
       'DESIGN.md section 5 C18')
+
+
+claim('C12',
+      'Lean theorems (Props/C12.lean, 49 theorems) over an exact executable model of every NIST SP 800-22 test in nist_suite.py '
+      'and of LargeBinaryMatrixRank / LinearComplexityScatter (Model/Nist.lean: parameter choice or Python exception, integer counts, '
+      'exact rational statistic), for every bit string and length: '
+      '(1) parameter ladders and insufficient-data conditions as iff-characterisations (BlockFrequency n<100 and block size; LongestRuns n<128 and '
+      '128/6272/750000; rank n<38rc; Universal n<387840 and L = largest admissible; LinearComplexity; template size; Serial/ApEn m_max; large rank n<4096); '
+      '(2) the statistic equals the NIST definition over the bit list for frequency, runs, block frequency (chi-square as exact rational), '
+      'longest-run histogram, cusum forward/backward maxima, excursion cycle count, per-cycle visit histograms and visit totals, '
+      'and the pattern counts of the template / Serial / ApproximateEntropy tests (all levels: psi-square sums of squares and ApEn count multisets); '
+      '(3) invariance of the exact statistic under complement (frequency, runs, block frequency), reversal (frequency, runs), '
+      'forward-cusum(reversed) = backward-cusum, and cyclic rotation (Serial / ApEn pattern counts); '
+      '(4) tables by kernel computation on constants regenerated from the source: LongestRuns M=8 row = exact distribution over all 256 blocks '
+      'rounded to 4 digits, M=128 row rounded/truncated (via a recurrence checked against brute force for M=8,10), LinearComplexity pi = exact '
+      'probabilities (central classes) and tail sums up to 1/(3*2^m), RandomExcursionsDistribution = NIST closed form and sums to 1; '
+      '(5) ranges: every chi-square >= 0, Serial first differences >= 0, shape parameters > 0, runs denominator > 0. '
+      'NOT proved, only cross-checked on every run against mpmath (50 digits, tolerance max(1e-9, 1e-7 p)) on ~48k inputs (exhaustive to length 10/14, '
+      'every harvested threshold +-1, constant/periodic/one-sided/de Bruijn/random strings to 2^16/2^20, all optional parameters): the floating-point tail '
+      '(erfc, igamc, erf, log, sqrt, matrix_power, binom.cdf, FFT of the spectral test) and hence the value and the [0,1] range of each p-value; '
+      'Serial second difference >= 0 and correctness of the longest-run recurrence for all M are stated but unproved; ApEn chi-square >= 0 is not rational (not stated). '
+      'Undecided: NIST constants that are not rationally derivable (Universal expected value/variance, asymptotic rank tables: numerically cross-checked only). '
+      'Findings: D4, D10-D14 confirmed, D19 (Universal always uses L=6) and D20 (NIST M=10000 LongestRuns row is not the exact distribution) new; '
+      'the model carries the repaired behaviour, the pinned behaviour is refuted on concrete witnesses.',
+      'Trusted: Lean kernel, mpmath as float-tail oracle, correspondence harness, shims; per-block linear complexities are an oracle recorded from the implementation (C14); '
+      'bit primitives of util.py are replaced by list-level definitions in the model and cross-checked by the correspondence (their own proofs are C15). '
+      'Preconditions: bits < 2^n, optional parameters >= 1 (UniversalImpl with L = 1 returns p = 2 because NIST\'s c-formula is negative there: observed, outside the documented range).',
+      'Lean 4 proofs over an exact executable model + differential correspondence with mpmath re-evaluation of the floating-point tail',
+      'DESIGN.md section 5 C12')
+
